@@ -526,11 +526,13 @@ enum HOp {
     Call1,
     Call2,
     CallNone,
+    /// GET_VRING_BASE (drops the kick and call descriptors), a signal from the backend, restart
+    StopSignalRestart,
     UseRing,
 }
 
 fn histories(rep: &mut Report, depth: usize) {
-    let ops = [HOp::TableA, HOp::TableB, HOp::Addr, HOp::Call1, HOp::Call2, HOp::CallNone, HOp::UseRing];
+    let ops = [HOp::TableA, HOp::TableB, HOp::Addr, HOp::Call1, HOp::Call2, HOp::CallNone, HOp::StopSignalRestart, HOp::UseRing];
     let mut seqs: Vec<Vec<usize>> = vec![vec![]];
     let mut all: Vec<Vec<usize>> = Vec::new();
     for _ in 0..depth {
@@ -605,6 +607,36 @@ fn histories(rep: &mut Report, depth: usize) {
                         broken = true;
                     }
                 }
+                HOp::StopSignalRestart => {
+                    let _ = h.probe(0); // makes the worker's ring handles available to the harness
+                    match h.req(GET_VRING_BASE, &p_vring_state(0, 0), &[]) {
+                        ReqOut::Msg(..) => {}
+                        _ => {
+                            broken = true;
+                            continue;
+                        }
+                    }
+                    call = None; // the stop removes the call descriptor
+                    let ring = h.be.vrings.lock().unwrap().first().and_then(|v| v.first().cloned());
+                    if let Some(r) = ring {
+                        use vhost_user_backend::VringT;
+                        let _ = r.signal_used_queue();
+                    }
+                    rep.evaluations += 1;
+                    rep.transitions += 1;
+                    let got = [eventfd_count(calls[0].as_raw_fd()).unwrap_or(0), eventfd_count(calls[1].as_raw_fd()).unwrap_or(0)];
+                    if got != counts {
+                        rep.outcome("signal-after-stop-delivered");
+                        rep.violation("C14:ring-operation:signal-on-removed-call-descriptor", &format!("after GET_VRING_BASE a signal from the backend raised a call descriptor: counters {:?}, expected {:?}", got, counts), case.clone());
+                        broken = true;
+                    } else {
+                        rep.outcome("signal-after-stop-ignored");
+                        rep.nontrivial += 1;
+                    }
+                    if h.ack(SET_VRING_KICK, &p_u64(0), &[kick.as_raw_fd()]) != Ok(true) {
+                        broken = true;
+                    }
+                }
                 HOp::UseRing => {
                     if !addr_set || table.is_none() {
                         continue;
@@ -676,7 +708,7 @@ pub fn run(rep: &mut Report) {
     rep.sample(json!({"part":"set_vring_num","num":3,"expect":"rejected, or the ring really has size 3"}));
     rep.sample(json!({"part":"histories","seq":["TableA","Addr","Call1","TableB","Call2","UseRing"],"expect":"used element in table B's file, only call descriptor 2 signalled"}));
     rep.sample(json!({"part":"set_features","offered":"0x160000003","requested":"0x20000000","expect":"accepted, backend gets exactly 0x20000000, event_idx=true on every queue"}));
-    rep.rule = "ring index 0..=255 for each of the 8 per-ring messages; SET_VRING_NUM over 0..=300 and boundaries (0..=65535 and beyond at thorough) with the resulting queue size read back; SET_VRING_BASE then GET_VRING_BASE and used-index contents over 0..=260 and boundaries (0..=65535 at thorough); 343 address triples at region edges, 512 triples over two regions adjacent in the frontend's address space but not in guest address space; all histories of length <= 3 (5 at thorough) over {SET_FEATURES plain / with EVENT_IDX / EVENT_IDX only, RESET_OWNER, RESET_DEVICE} ending in a SET_FEATURES (backend and queues must hold the latest set); SET_FEATURES for 7 offered masks x (single bits, offered minus/plus one bit, patterns) on 1-3 queues incl. EVENT_IDX; the backend-request channel after each of the 8 subsets of {REPLY_ACK, SHARED_OBJECT, SHMEM}; all histories of length <= 4 (5 at thorough) over {table A, table B, SET_VRING_ADDR, call fd1/fd2/none, add_used+signal} ending in a ring operation. Queue state is read by a probe listener inside the worker. Non-trivial = evaluations whose queue state / callback / memory / counter was compared".into();
+    rep.rule = "ring index 0..=255 for each of the 8 per-ring messages; SET_VRING_NUM over 0..=300 and boundaries (0..=65535 and beyond at thorough) with the resulting queue size read back; SET_VRING_BASE then GET_VRING_BASE and used-index contents over 0..=260 and boundaries (0..=65535 at thorough); 343 address triples at region edges, 512 triples over two regions adjacent in the frontend's address space but not in guest address space; all histories of length <= 3 (5 at thorough) over {SET_FEATURES plain / with EVENT_IDX / EVENT_IDX only, RESET_OWNER, RESET_DEVICE} ending in a SET_FEATURES (backend and queues must hold the latest set); SET_FEATURES for 7 offered masks x (single bits, offered minus/plus one bit, patterns) on 1-3 queues incl. EVENT_IDX; the backend-request channel after each of the 8 subsets of {REPLY_ACK, SHARED_OBJECT, SHMEM}; all histories of length <= 4 (5 at thorough) over {table A, table B, SET_VRING_ADDR, call fd1/fd2/none, GET_VRING_BASE + signal + restart, add_used+signal} ending in a ring operation. Queue state is read by a probe listener inside the worker. Non-trivial = evaluations whose queue state / callback / memory / counter was compared".into();
 }
 
 pub fn replay(case: &Value, rep: &mut Report) {
